@@ -28,6 +28,8 @@ fn main() {
         Some("bank-directed") => scen::run_family(arg(&a, 2, 0), arg(&a, 3, 4), arg(&a, 4, 0), fam_directed::scenario),
         Some("bank-honest") => scen::run_family(arg(&a, 2, 0), arg(&a, 3, 16), arg(&a, 4, 0), fam_honest::scenario),
         Some("dump-constants") => constants::main(),
+        Some("bumps") => { for (n, id) in [("mock", mock_swap_sol_2z::ID)].into_iter().chain((1..12u64).map(|i| ("rogue", keys::rogue_id(i)))) {
+            println!("{} {} bump {}", n, id, doublezero_revenue_distribution::state::find_withdraw_sol_authority_address(&id).1); } }
         _ => { eprintln!("usage: dzh <family> ..."); std::process::exit(2); }
     }
 }
